@@ -54,6 +54,7 @@ def shapes(grid):
 def scenarios(tier, seed):
     out = [("long", kind, side) for kind in ("mkt", "lim", "stp", "sl") for side in ("B", "S")]
     out += [("other-pair", kind, side) for kind in ("mkt", "lim", "stp", "sl") for side in ("B", "S")]
+    out += [("reconfig", kind, side) for kind in ("mkt", "lim", "stp", "sl") for side in ("B", "S")]
     for ci in range(len(CONFIGS)):
         for kind in ("mkt", "lim", "stp", "sl"):
             for side in ("B", "S"):
@@ -269,6 +270,80 @@ def run_other_pair(sc, tier, res):
     return res
 
 
+def run_reconfig(sc, tier, res):
+    """The pair's precision is changed (set_pair_info / set_symbol_precision) AFTER an order of the pair has been processed.
+    Orders placed afterwards live on the NEW grid: limits are respected up to rounding at the new quote precision, and with
+    infinite liquidity and ample funds they are filled completely (amounts that only exist on the new base grid too)."""
+    _, kind, side = sc
+    half = {}
+    for (bp0, qp0), (bp1, qp1) in (((0, 2), (2, 6)), ((0, 2), (1, 3)), ((2, 2), (3, 4)), ((0, 0), (2, 2))):
+        for how in ("pair", "symbols"):
+            for first in ("mkt", "lim"):
+                for amount, price in ((3, "1.234567"), (25, "0.987654"), (1, "33.333333")):
+                    case = dict(kind="reconfig", order=kind, side=side, before=[bp0, qp0], after=[bp1, qp1], how=how, first=first,
+                                amount=amount, price=price)
+                    bad = []
+                    try:
+                        d = bs.backtesting_dispatcher()
+                        e = ex.Exchange(d, {"USD": D(10 ** 9), "BTC": D(10 ** 6)}, liquidity_strategy_factory=liquidity.InfiniteLiquidity)
+                        e.add_bar_source(bs.FifoQueueEventSource())
+                        if how == "pair":
+                            e.set_pair_info(P, bs.PairInfo(bp0, qp0))
+                        e.set_symbol_precision("BTC", bp0)
+                        e.set_symbol_precision("USD", qp0)
+                        uq1 = D(1).scaleb(-qp1)
+                        px = D(price).quantize(uq1)
+                        flat = (px, px, px, px)
+                        t = 1
+                        bar(d, e, t, flat, D(1000))
+                        # an order of the pair is accepted and processed under the first configuration
+                        if first == "mkt":
+                            call(e.create_market_order(SIDE["B"], P, D(10)))
+                        else:
+                            call(e.create_limit_order(SIDE["B"], P, D(10), (px * 2).quantize(D(1).scaleb(-qp0))))
+                        t += 1
+                        bar(d, e, t, flat, D(1000))
+                        # reconfiguration
+                        if how == "pair":
+                            e.set_pair_info(P, bs.PairInfo(bp1, qp1))
+                        e.set_symbol_precision("BTC", bp1)
+                        e.set_symbol_precision("USD", qp1)
+                        amt = D(amount) * D(1).scaleb(-bp1)
+                        op = SIDE[side]
+                        if kind == "mkt":
+                            oid = call(e.create_market_order(op, P, amt)).id
+                        elif kind == "lim":
+                            oid = call(e.create_limit_order(op, P, amt, px)).id
+                        elif kind == "stp":
+                            oid = call(e.create_stop_order(op, P, amt, px)).id
+                        else:
+                            oid = call(e.create_stop_limit_order(op, P, amt, px, px)).id
+                        t += 1
+                        bar(d, e, t, flat, D(1000))
+                        info = call(e.get_order_info(oid))
+                        if info.amount_filled != amt:
+                            bad.append(("not-filled-after-reconfiguration", f"{kind} {side} {amt} @ {px}: filled {info.amount_filled} by "
+                                        f"a flat bar at {px} (infinite liquidity, ample funds)"))
+                        if info.amount_filled > 0:
+                            db, dq = info.amount_filled, info.quote_amount_filled
+                            if abs(dq - px * db) > uq1 / 2:
+                                bad.append(("price-after-reconfiguration", f"{kind} {side}: {db} traded for {dq} in a flat bar at {px}: "
+                                            f"off by more than rounding at the new quote precision {qp1}"))
+                    except Exception as x:  # noqa
+                        bad.append(("internal-error", f"{type(x).__name__}: {x}"))
+                    res.executions += 1
+                    res.transitions += 3
+                    res.validated += 1
+                    key = h64(("reconfig", repr(case)))
+                    res.states.add(key)
+                    res.nontrivial.add(key)
+                    res.outcomes["reconfig"] += 1
+                    for clause, detail in bad:
+                        res.violation(f"{PROPERTY}:{clause}:{kind}:{side}", f"{detail}; {case}", case, size=3)
+    res.samples.append(dict(kind="reconfig", order=kind, side=side))
+    return res
+
+
 def run_long(sc, tier, res):
     """Completeness on long two-pair histories: an order on one pair rests while N bars of ANOTHER pair go by (the
     exchange looks its open orders up on each of them, re-indexing the list every 50 look-ups); the first bar of its own
@@ -343,6 +418,8 @@ def run_scenario(sc, tier):
         return run_long(sc, tier, res)
     if sc[0] == "other-pair":
         return run_other_pair(sc, tier, res)
+    if sc[0] == "reconfig":
+        return run_reconfig(sc, tier, res)
     ci, kind, side, lim_s = sc
     cfg = CONFIGS[ci]
     liq = cfg[0]
@@ -393,6 +470,11 @@ def _s(x):
 
 
 def replay(rep):
+    if rep.get("kind") == "reconfig":
+        res = Result()
+        run_reconfig(("reconfig", rep["order"], rep["side"]), "quick", res)
+        want = {k: rep[k] for k in ("before", "after", "how", "first", "amount", "price")}
+        return [v["message"] for v in res.violations if all(v["replay"].get(k) == x for k, x in want.items())][:3]
     if rep.get("kind") == "other-pair":
         res = Result()
         run_other_pair(("other-pair", rep["order"], rep["side"]), "quick", res)
